@@ -117,11 +117,11 @@ Theorem C06_snapshot_leaves_spec : forall d t rs,
   flat_map shown_leaves rs = flat_map (fun r => leaves_spec d t (eattrs r) (region_sel d r)) (doc_regions d).
 Proof. exact isd_leaves. Qed.
 
-(* S to S: the visible text Spec/CueSpec.v prescribes at t (`vis`, with ruby annotations) holds exactly the characters of the leaves
-   C01's per-leaf specification selects, region by region, when all Br/Text leaves of the body sit in paragraphs *)
+(* S to S: the visible text Spec/CueSpec.v prescribes at t (`vis`, with ruby annotations) holds exactly the non-blank characters
+   (`nb`) of the leaves C01's per-leaf specification selects, region by region, when all Br/Text leaves of the body sit in paragraphs *)
 Theorem C06_spec_vis_is_leaves : forall d t,
   match d_body d with Some b => leaves_in_p b = true | None => True end ->
-  tok_chars (vis true d t) = flat_map leaf_chars (flat_map (fun r => leaves_spec d t (eattrs r) (region_sel d r)) (doc_regions d)).
+  tok_chars (vis true d t) = nb (flat_map leaf_chars (flat_map (fun r => leaves_spec d t (eattrs r) (region_sel d r)) (doc_regions d))).
 Proof. exact vis_leaves. Qed.
 (* end to end for one (uncached) snapshot: document -> snapshot (C01) -> filters -> SubRip cues = the visible text of S at t *)
 Theorem C06_srt_snapshot_spec : forall d t fmt b en n regions cs n',
